@@ -101,12 +101,24 @@ pub mod util;
 pub mod h_c16;
 #[cfg(any(all(kani, feature = "k_q"), all(not(kani), feature = "k_native")))]
 pub mod h_rt;
+#[cfg(any(all(kani, feature = "k_q"), all(not(kani), feature = "k_native")))]
+pub mod h_shm;
+#[cfg(any(all(kani, feature = "k_q"), all(not(kani), feature = "k_native")))]
+pub mod h_gone;
+#[cfg(any(all(kani, feature = "k_q"), all(not(kani), feature = "k_native")))]
+pub mod h_modes;
+#[cfg(any(all(kani, feature = "k_q"), all(not(kani), feature = "k_native")))]
+pub mod h_attach;
 #[cfg(any(all(kani, feature = "k_rec"), all(not(kani), feature = "k_native")))]
 pub mod h_send;
 
 #[cfg(all(not(kani), feature = "k_native"))]
 pub fn lookup(name: &str) -> Option<fn()> {
     h_c16::lookup(name).or_else(|| h_send::lookup(name)).or_else(|| h_rt::lookup(name))
+        .or_else(|| h_shm::lookup(name))
+        .or_else(|| h_gone::lookup(name))
+        .or_else(|| h_modes::lookup(name))
+        .or_else(|| h_attach::lookup(name))
 }
 
 /// compiled once per feature set to warm the dependency cache (vlib/kanirun.py: seed_target)
